@@ -6,6 +6,7 @@ import (
 	"path/filepath"
 	"sort"
 	"strings"
+	"runtime/pprof"
 	"time"
 
 	"golang.org/x/tools/go/ssa"
@@ -31,6 +32,12 @@ func main() {
 	if len(os.Args) < 2 {
 		usage()
 	}
+	if pf := os.Getenv("GOVC_PROF"); pf != "" {
+		if fh, err := os.Create(pf); err == nil {
+			pprof.StartCPUProfile(fh)
+			defer pprof.StopCPUProfile()
+		}
+	}
 	switch os.Args[1] {
 	case "check":
 		if len(os.Args) < 3 {
@@ -50,7 +57,9 @@ func main() {
 		if len(os.Args) < 5 {
 			usage()
 		}
-		os.Exit(debugRun(os.Args[2], os.Args[3], os.Args[4:]))
+		code := debugRun(os.Args[2], os.Args[3], os.Args[4:])
+		pprof.StopCPUProfile()
+		os.Exit(code)
 	case "funcs":
 		e := NewEngine()
 		if err := e.Load(os.Args[2], []string{os.Args[3]}); err != nil {
